@@ -203,8 +203,8 @@ func (ex *Exec) builtin(st *State, fr *Frame, b *ssa.Builtin, args []Value, c *s
 		ex.mapWrite(st, args[0], args[1], nil, False)
 		return nil
 	case "panic":
-		ex.panics = append(ex.panics, Event{Kind: "explicit panic", PC: st.pc, Pos: ex.pos(site), Case: ex.curCase})
-		st.pc = False
+		ex.panics = append(ex.panics, Event{Kind: "explicit panic", PC: st.pcTerm(), Pos: ex.pos(site), Case: ex.curCase})
+		st.kill()
 		return nil
 	case "print", "println":
 		return nil
@@ -276,8 +276,8 @@ func (ex *Exec) blockIf(st *State, cond *Term, kind string, site ssa.Instruction
 	if cond.IsFalse() || st.dead() {
 		return
 	}
-	ex.blocks = append(ex.blocks, Event{Kind: kind, PC: And(st.pc, cond), Pos: ex.pos(site), Case: ex.curCase, Msg: ex.heldLocks(st)})
-	st.pc = And(st.pc, Not(cond))
+	ex.blocks = append(ex.blocks, Event{Kind: kind, PC: And(st.pcTerm(), cond), Pos: ex.pos(site), Case: ex.curCase, Msg: ex.heldLocks(st)})
+	st.assume(Not(cond))
 }
 
 func chanPush(cv *ChanVal, x Value, g *Term) *ChanVal {
@@ -343,7 +343,7 @@ func (ex *Exec) chanRecv(st *State, fr *Frame, site ssa.Instruction, c Value, co
 		}
 	}
 	if first {
-		st.pc = False
+		st.kill()
 		return nil
 	}
 	if commaOk {
